@@ -13,6 +13,55 @@ if TYPE_CHECKING:
     from aquacrop.entities.initParamVariables import InitialCondition
 
 
+def start_under_water_table(th, at_fc, th_fc_Adj, wt_in_soil, z_gw, profile, hydf):
+    """
+    Initial water content of a season that starts with a water table at depth z_gw
+
+
+    Arguments:
+
+        th (numpy.ndarray): water content requested for each compartment
+
+        at_fc (numpy.ndarray): True where the request was the field capacity (a soil property)
+
+        th_fc_Adj (numpy.ndarray): field capacity adjusted for the water table of the day
+
+        wt_in_soil (bool): water table within the soil profile
+
+        z_gw (float): depth of the water table (m)
+
+        profile (DataFrame): soil compartments
+
+        hydf (DataFrame): soil hydraulic properties per layer
+
+
+    Returns:
+
+        th (numpy.ndarray): water content to start from
+
+    """
+    # If calculating water contents based on field capacity, account for the
+    # changes in field capacity caused by capillary rise effects
+    # (only the compartments that were given their field capacity, and
+    # as values: th and th_fc_Adj stay separate arrays)
+    th = np.where(at_fc, th_fc_Adj, th)
+
+    # If groundwater table is present in soil profile then set all water
+    # contents below the water table to saturation
+    if wt_in_soil is True:
+        # Find compartment mid-points
+        SoilDepths = profile.dzsum.values
+        comp_top = np.append([0], SoilDepths[:-1])
+        comp_bot = SoilDepths
+        comp_mid = (comp_top + comp_bot) / 2
+        idx = np.where(comp_mid >= z_gw)[0][0]
+        for ii in range(idx, len(profile)):
+            layeri = profile.loc[ii].Layer
+            th[ii] = hydf.th_s.loc[layeri]
+
+    return th
+
+
 def read_model_initial_conditions(
     ParamStruct: "ParamStruct",
     ClockStruct: "ClockStruct",
@@ -305,31 +354,22 @@ def read_model_initial_conditions(
         thini = np.interp(comp_mid, depths, values)
         InitCond.th = thini
 
-    # If groundwater table is present and calculating water contents based on
-    # field capacity, then reset value to account for possible changes in field
-    # capacity caused by capillary rise effects
-    if ParamStruct.water_table == 1:
-        if typestr == "Prop":
-            # (only the compartments that were given their field capacity, and
-            # as values: th and th_fc_Adj stay separate arrays)
-            at_fc = np.isclose(InitCond.th, profile.th_fc.values)
-            InitCond.th = np.where(at_fc, InitCond.th_fc_Adj, InitCond.th)
-
-    # If groundwater table is present in soil profile then set all water
-    # contents below the water table to saturation
-    if InitCond.wt_in_soil is True:
-        # Find compartment mid-points
-        SoilDepths = profile.dzsum.values
-        comp_top = np.append([0], SoilDepths[:-1])
-        comp_bot = SoilDepths
-        comp_mid = (comp_top + comp_bot) / 2
-        idx = np.where(comp_mid >= InitCond.z_gw)[0][0]
-        for ii in range(idx, len(profile)):
-            layeri = profile.loc[ii].Layer
-            InitCond.th[ii] = hydf.th_s.loc[layeri]
-
-    # keep an independent copy: th is updated in place by some processes
+    # The configured initial water content is kept as requested: a season that
+    # restarts from it (off-season not simulated) applies the water table of
+    # its own first day, as done here for the first day of the simulation
     InitCond.thini = np.copy(InitCond.th)
+    InitCond.thini_fc = (typestr == "Prop") & np.isclose(InitCond.th, profile.th_fc.values)
+
+    if ParamStruct.water_table == 1:
+        InitCond.th = start_under_water_table(
+            InitCond.th,
+            InitCond.thini_fc,
+            InitCond.th_fc_Adj,
+            InitCond.wt_in_soil,
+            InitCond.z_gw,
+            profile,
+            hydf,
+        )
 
     ParamStruct.Soil.profile = profile
     ParamStruct.Soil.Hydrology = hydf
